@@ -276,7 +276,16 @@ def replay(unit, obl):
 
     def gtd(x, y, z, *, t, k=3.0):
         return k * x + y * z + t
-    mk = {"param2d": lambda: Parameter(g2), "param3d": lambda: Parameter(g3), "td_param": lambda: Parameter(gtd, time_dependent=True),
+    ncl = [0]
+
+    def closure():
+        ncl[0] += 1
+        k0 = 0.5 + 0.75 * ncl[0]
+
+        def gc(x, y, z):
+            return k0 * x + y - k0 * z
+        return Parameter(gc)
+    mk = {"closure_param": closure, "param2d": lambda: Parameter(g2), "param3d": lambda: Parameter(g3), "td_param": lambda: Parameter(gtd, time_dependent=True),
           "td_param_cache_off": lambda: Parameter(gtd, time_dependent=True, use_cache=False), "int": lambda: 3, "float": lambda: 2.5,
           "composite": lambda: Parameter(g3) * Parameter(g3), "td_composite": lambda: Parameter(g3) + Parameter(gtd, time_dependent=True)}
 
